@@ -11,9 +11,10 @@
    appended a second time when the repetition is also the last header) and warning (fixes/C18-warn-format.patch: more than
    48 layers only warns); the former `_refuted` theorems for these two defects are gone and the three main theorems hold
    without any excluded shape.
-   Clause (4) of the property (the block-walking reader bpch2 presents the same data) has NO theorem: bpch2 cannot
-   run in this environment (known finding C18-bpch2-cannot-run, region 1) and is not modelled. *)
-From PNC Require Import Base.Util Base.Words Gen.Bpch Model.Bpch Proofs.WordsProofs Proofs.BpchProofs Proofs.BpchPrefixProofs Proofs.BpchPrefixThm.
+   Clause (4): `impl_bpch2` = bpch2.__init__ + variable access as repaired by a06c03f (walk over EVERY block header,
+   per key the blocks in order of first appearance, FIRST matching table row, IndexError when a row is missing);
+   `readers_agree` = same variables (ids, names, units, SCALE, dims, nested offsets), time stamps and data. *)
+From PNC Require Import Base.Util Base.Words Gen.Bpch Model.Bpch Proofs.WordsProofs Proofs.BpchProofs Proofs.BpchPrefixProofs Proofs.BpchPrefixThm Proofs.Bpch2Proofs.
 From Coq Require Import String QArith.
 Import Coq.Lists.List. Import ListNotations.
 Local Open Scope Z_scope.
@@ -87,6 +88,26 @@ Theorem C18_every_prefix : forall T D f c,
 Proof. exact prefix_open. Qed.
 Print Assumptions C18_every_prefix.
 
+(* Clause (4): for every bpch-convention file whose time blocks carry pairwise different time stamps and whose
+   categories are all in diaginfo.dat and tracer numbers offset+id all in tracerinfo.dat, the block-walking reader opens
+   the file and presents the same variables, time stamps and data as the memory-mapped one.
+   _partial: `tables_complete` (refuted below without it) and `taus_distinct` (bpch2 keys a variable's blocks by
+   (tau0, tau1): two time blocks with the same stamp collapse into one). *)
+Theorem C18_readers_agree_partial : forall T D f,
+  wf T D f = true -> tables_ok T D = true -> tables_complete T D f = true -> taus_distinct f = true ->
+  exists v1 v2, impl_open T D (enc f) (4 * lenZ (enc f)) = Ok v1
+                /\ impl_bpch2 T D (enc f) (4 * lenZ (enc f)) = Ok v2
+                /\ readers_agree v1 v2.
+Proof. exact readers_agree_enc. Qed.
+Print Assumptions C18_readers_agree_partial.
+
+(* what bpch2 presents, in closed form (no uniqueness of table keys needed: bpch2 takes the first matching row) *)
+Theorem C18_bpch2_presents_content_partial : forall T D f,
+  wf T D f = true -> tables_complete T D f = true -> taus_distinct f = true ->
+  impl_bpch2 T D (enc f) (4 * lenZ (enc f)) = Ok (view2_of T D f).
+Proof. exact bpch2_enc. Qed.
+Print Assumptions C18_bpch2_presents_content_partial.
+
 (* Translation validation (tie T): reader and writer header layouts agree field by field (the writer's `dim` is
    the reader's f13+f14), pads are the record payload sizes, skip = data bytes + 8. *)
 Theorem C18_layouts :
@@ -157,4 +178,23 @@ Example C18_prefix_alternatives :
   impl_open C18_T C18_D (firstn 100 (enc C18_example)) 400 = Err
   /\ impl_open C18_T C18_D (firstn 215 (enc C18_example)) 862 = Ok (view_of C18_T C18_D (trunc_times 1 C18_example))
   /\ impl_open C18_T C18_D (firstn 92 (enc C18_example)) 368 = Ok (view_of C18_T C18_D (first_tracers 1 C18_example)).
+Proof. vm_compute. repeat split; reflexivity. Qed.
+
+(* Without table completeness clause (4) is false: a category that has no line in diaginfo.dat is read by bpch1
+   (offset 0, documented fallback) but makes bpch2 raise IndexError.  Replays on the library
+   (finding C18-bpch2-missing-table-entry). *)
+Theorem C18_readers_agree_refuted : exists T D f,
+  wf T D f = true /\ tables_ok T D = true /\ taus_distinct f = true /\ tables_complete T D f = false
+  /\ (exists v1, impl_open T D (enc f) (4 * lenZ (enc f)) = Ok v1)
+  /\ impl_bpch2 T D (enc f) (4 * lenZ (enc f)) = Err.
+Proof.
+  exists C18_T, [(repeat 1128808781 10, 2000)], (C18_file [[C18_blk 1083129856 1 1 [1065353216]]]).
+  vm_compute. repeat split; try reflexivity. eexists. reflexivity.
+Qed.
+Print Assumptions C18_readers_agree_refuted.
+
+(* non-vacuity of the agreement theorem: the two-time, two-tracer, two-category example *)
+Example C18_agree_inhabited :
+  tables_complete C18_T C18_D C18_example = true /\ taus_distinct C18_example = true
+  /\ s_data (view2_of C18_T C18_D C18_example) = [[[1065353216]; [1073741824]]; [[1; 2; 3; 4; 5; 6]; [7; 8; 9; 10; 11; 12]]].
 Proof. vm_compute. repeat split; reflexivity. Qed.
